@@ -517,3 +517,6 @@ def check(ctx):
     ctx.rule("R9", "message sequences end to end: on both stacks the long-lived partial-update handler, wired to the connection's own apply callback, is driven handle / handled per message with builder-made messages (two messages, an empty one in between, one position repeated within and across messages, a one-byte change): the structure receives every change once, in arrival order, and one acknowledgement is queued per message")
     message_sequence_model(ctx, repo, "R9")
     ctx.note("Not decided: interleaving of partial updates with refreshes; an observer raising during the sync apply loop skips the for-else clear (documented residual).")
+    ctx.rule("R15", "no update is thrown away unread: on the awaitable connection every consumer polls ONE receive queue, so only the consumers (the request waiter, the long-lived consume loops, the discard consumer) and their private helpers may take datagrams off it - a request engine that empties the queue when one of its attempts times out discards the partial update that was waiting for its handler: its changes are never applied and it is never acknowledged (C07.R2's who-may-pop borrowed)")
+    from .c07 import who_may_remove as _wmr5
+    _wmr5(ctx.borrowed("R15", "C07"), repo, "R2")
